@@ -13,7 +13,7 @@ import (
 	"verif/harness/lib/rtppack/esgen"
 )
 
-const ruleText = "structured (rapid): a valid stream (H.264 or H.265 with any legal packetisation, ± AAC, optional leading sender reports, SDP with or without sprop parameter sets, GOP cache on/off) receives at a generated position one hostile packet (sometimes a burst of up to 3) of a generated class: hostile payload constants, payloads of 0..3 bytes, STAP-A / AP with truncated, zero, off-by-one or oversized size fields and trailing bytes, FU with header bytes only / contradictory S,E bits / nested types, AAC-hbr with bad AU-headers-length or AU sizes beyond the payload, RTCP of 0..28 bytes with packet type 200 and other types, RTP headers cut below 12 bytes or with lying CC / X / P fields, and single-byte corruptions / truncations of a valid packet of the stream at a generated offset; plus an enumeration of every truncation length and every byte offset of reference packets. Every packet goes through rtp.ReadPacket exactly as the publisher's session builds it. Oracle: no panic reaches the caller of WriteRtpPacket and the call returns; afterwards K well-formed key-frame access units written to the same stream are relayed to its RTP consumer (same objects, in order), come out as FLV tags, and (H.264+AAC) appear in an HLS segment; a twin stream in the same process gives the same RTP list and FLV tags as in a control run without the injection. Non-trivial = the hostile packet was accepted by ReadPacket and reached a GOP-cache classifier + depacketiser (video channel of an H.264/H.265 stream), the AAC depacketiser (audio channel of a stream with AAC), or the sync clock (control channel whose clock had not been set); distinct = distinct (stream parameters, position, hostile bytes)"
+const ruleText = "structured (rapid): a valid stream (H.264 or H.265 with any legal packetisation, ± AAC, optional leading sender reports, SDP with or without sprop parameter sets, GOP cache on/off) receives at a generated position one hostile packet (sometimes a burst of up to 3) of a generated class: hostile payload constants, payloads of 0..3 bytes, STAP-A / AP with truncated, zero, off-by-one or oversized size fields and trailing bytes, FU with header bytes only / contradictory S,E bits / nested types, never-ending fragmentation units (start + up to 40 middle fragments of 1..65520 bytes, ended late or abandoned; separately enumerated up to 5.3 MiB, thorough 16 MiB, followed by a start fragment / a single NAL unit / an end fragment), RTP padding (P bit with pad counts 0, 1, len(payload)±1, len(payload), len(packet), 255 and correctly padded packets, payloads of 1..8 bytes and normal ones, video and audio), AAC-hbr with bad AU-headers-length or AU sizes beyond the payload, RTCP of 0..28 bytes with packet type 200 and other types, RTP headers cut below 12 bytes or with lying CC / X / P fields, and single-byte corruptions / truncations of a valid packet of the stream at a generated offset; plus an enumeration of every truncation length and every byte offset of reference packets. Every packet goes through rtp.ReadPacket exactly as the publisher's session builds it. Oracle: no panic reaches the caller of WriteRtpPacket and the call returns; afterwards K well-formed key-frame access units written to the same stream are relayed to its RTP consumer (same objects, in order), come out as FLV tags, and (H.264+AAC) appear in an HLS segment; a twin stream in the same process gives the same RTP list and FLV tags as in a control run without the injection. Non-trivial = the hostile packet was accepted by ReadPacket and reached a GOP-cache classifier + depacketiser (video channel of an H.264/H.265 stream), the AAC depacketiser (audio channel of a stream with AAC), or the sync clock (control channel whose clock had not been set); distinct = distinct (stream parameters, position, hostile bytes)"
 
 // ---------------------------------------------------------------- generation
 
@@ -36,7 +36,8 @@ type variant struct {
 	name             string
 	codec            string // "", "H264", "H265"
 	forceAudio       bool
-	classLo, classHi int // range of the class draw in genHostile
+	fu               bool // never-ending fragmentation units
+	classLo, classHi int  // range of the class draw in genHostile
 }
 
 func genCase(t *rapid.T, v variant) *caseSpec {
@@ -137,6 +138,23 @@ func genCase(t *rapid.T, v variant) *caseSpec {
 	if rapid.IntRange(0, 7).Draw(t, "burst") == 0 {
 		n = rapid.IntRange(2, 3).Draw(t, "burstLen")
 	}
+	if v.fu && rapid.IntRange(0, 9).Draw(t, "neverEndingFU") == 0 {
+		// a fragmentation unit that never ends (or ends late): start + many middle
+		// fragments, sizes from 1 byte to the largest interleaved frame
+		n = 0
+		middles := rapid.SampledFrom([]int{1, 2, 5, 17, 40}).Draw(t, "fuMiddles")
+		size := rapid.SampledFrom([]int{1, 2, 100, 1400, 65000, 65520}).Draw(t, "fuFragSize")
+		ended := rapid.Bool().Draw(t, "fuEnded")
+		key := rapid.Bool().Draw(t, "fuKey")
+		c.ProbeRot = rapid.IntRange(0, 2).Draw(t, "probeRot")
+		c.Class = fmt.Sprintf("never-ending-fu:ended=%v:%dx%dB", ended, middles+1, size)
+		for _, raw := range neverEndingFU(g.codec, middles, size, g.vseq, g.lastVTS, key, ended) {
+			c.Hostile = append(c.Hostile, mkPkt(rtp.ChannelVideo, raw, ""))
+		}
+		if c.Pos < nLead {
+			c.Pos = nLead
+		}
+	}
 	for i := 0; i < n; i++ {
 		class, h := genHostile(t, g, c)
 		if i == 0 {
@@ -226,6 +244,15 @@ func genHostile(t *rapid.T, g *genState, c *caseSpec) (string, pkt) {
 		if g.audio && rapid.IntRange(0, 2).Draw(t, "hdrAudio") == 0 {
 			ch, pt, seq, ts = rtp.ChannelAudio, 97, seqA, g.lastATS
 			payload = rtppack.AacHbr([][]byte{{0x21, 0x10, 0x04}})
+		}
+		if rapid.IntRange(0, 2).Draw(t, "padding?") == 0 {
+			// RTP padding: P bit with lying / correct pad counts, on short and normal payloads
+			if rapid.Bool().Draw(t, "padShort") {
+				payload = payload[:rapid.IntRange(1, min(8, len(payload))).Draw(t, "padPayloadLen")]
+			}
+			h := rapid.SampledFrom(paddingVariants(pt, marker, seq, ts, payload)).Draw(t, "pad")
+			class := "rtp-padding:" + h.Name
+			return class, mkPkt(ch, h.B, class)
 		}
 		h := rapid.SampledFrom(hostileRtpHeaders(pt, seq, ts, payload)).Draw(t, "hdr")
 		class := "rtp-header:" + h.Name
@@ -613,16 +640,16 @@ func structured(t *testing.T, v variant, quick, thorough int) {
 // differ in their generator configuration, which also makes their case streams
 // different under one -rapid.seed.
 func TestContainmentH264(t *testing.T) {
-	structured(t, variant{name: "h264", codec: "H264", classLo: 0, classHi: 19}, 1500, 20000)
+	structured(t, variant{name: "h264", codec: "H264", classLo: 0, classHi: 19, fu: true}, 1200, 20000)
 }
 func TestContainmentH265(t *testing.T) {
-	structured(t, variant{name: "h265", codec: "H265", classLo: 0, classHi: 19}, 1500, 20000)
+	structured(t, variant{name: "h265", codec: "H265", classLo: 0, classHi: 19, fu: true}, 1200, 20000)
 }
 func TestContainmentAudioControlHeader(t *testing.T) {
-	structured(t, variant{name: "audio-control-header", codec: "H264", forceAudio: true, classLo: 9, classHi: 15}, 1500, 20000)
+	structured(t, variant{name: "audio-control-header", codec: "H264", forceAudio: true, classLo: 9, classHi: 15}, 1200, 20000)
 }
 func TestContainmentCorruptions(t *testing.T) {
-	structured(t, variant{name: "corruptions", classLo: 16, classHi: 19}, 1500, 20000)
+	structured(t, variant{name: "corruptions", classLo: 16, classHi: 19}, 1200, 20000)
 }
 
 // TestReplayFile re-runs the case of a violation file written by this package.
